@@ -30,6 +30,8 @@ type c14Draw struct {
 	Stroke []int
 	Grad   bool // fill with a gradient instead of Fill
 	GradR  bool `json:",omitempty"` // the gradient is radial (coverage and "painted" are judged, not its colour)
+	// LStops: offset, R, G, B quintuples (alpha 255) of the linear gradient; nil: c14Stop0 at 0, c14Stop1 at 1
+	LStops []float64 `json:",omitempty"`
 	Width  float64
 	Cap    int
 	Join   int
@@ -173,6 +175,9 @@ func genC14Once(kind string, r *core.Rng) *c14Case {
 			if kind == "dense" {
 				sk = "dense"
 			}
+			if kind == "gradient-stops" {
+				sk = core.PickS(r, []string{"curved", "poly"})
+			}
 			d := c14Draw{Data: dataCopy(c14Shape(r, size, sk)), X: c.W * r.Range(0.3, 0.7), Y: c.H * r.Range(0.3, 0.7), Rule: r.Intn(2), Z: core.PickI(r, []int{0, 0, 0, 1, -1}), Shape: sk, Size: size}
 			col := func() []int {
 				a := 255
@@ -186,6 +191,31 @@ func genC14Once(kind string, r *core.Rng) *c14Case {
 				if r.Chance(0.1) {
 					d.Grad = true
 					d.GradR = r.Chance(0.4)
+				}
+			}
+			if kind == "gradient-stops" {
+				// a large shape filled with a linear gradient of 2-4 stops; the first may lie after 0, the last
+				// before 1 (strictly increasing offsets with two decimals)
+				d.Fill, d.Grad, d.GradR = col(), true, false
+				d.Fill[3] = 255
+				ns := r.IntRange(2, 4)
+				off := 0.0
+				if r.Chance(0.6) {
+					off = float64(r.IntRange(5, 45)) / 100
+				}
+				for i := 0; i < ns; i++ {
+					d.LStops = append(d.LStops, off, float64(r.Intn(256)), float64(r.Intn(256)), float64(r.Intn(256)))
+					off += float64(r.IntRange(10, 30)) / 100
+					if i == ns-2 && r.Chance(0.4) {
+						off = 1
+					}
+					if off > 1 {
+						off = 1
+					}
+				}
+				// offsets must be strictly increasing: drop stops that ran into 1 twice
+				for len(d.LStops) >= 8 && d.LStops[len(d.LStops)-4] <= d.LStops[len(d.LStops)-8] {
+					d.LStops = d.LStops[:len(d.LStops)-4]
 				}
 			}
 			if sk == "open" || r.Chance(0.4) {
@@ -292,8 +322,13 @@ func c14Check(ci any, o *core.Obs) {
 			} else if d.Grad {
 				// in canvas coordinates (mm, Y up), across the whole canvas
 				L.grad = canvas.NewLinearGradient(canvas.Point{X: 0, Y: 0}, canvas.Point{X: c.W, Y: c.H})
-				L.grad.Add(0, c14Stop0)
-				L.grad.Add(1, c14Stop1)
+				if d.LStops == nil {
+					L.grad.Add(0, c14Stop0)
+					L.grad.Add(1, c14Stop1)
+				}
+				for i := 0; i+3 < len(d.LStops); i += 4 {
+					L.grad.Add(d.LStops[i], color.RGBA{uint8(d.LStops[i+1]), uint8(d.LStops[i+2]), uint8(d.LStops[i+3]), 255})
+				}
 				ctx.SetFillGradient(L.grad)
 			} else {
 				ctx.SetFillColor(nrgba(d.Fill))
@@ -393,7 +428,17 @@ func c14Check(ci any, o *core.Obs) {
 	}
 	for _, L := range layers {
 		if L.grad != nil {
-			if L.grad.Start != (canvas.Point{X: 0, Y: 0}) || L.grad.End != (canvas.Point{X: c.W, Y: c.H}) || len(L.grad.Stops) != 2 || L.grad.Stops[0].Color != c14Stop0 || L.grad.Stops[1].Color != c14Stop1 {
+			changed := L.grad.Start != (canvas.Point{X: 0, Y: 0}) || L.grad.End != (canvas.Point{X: c.W, Y: c.H})
+			if L.d.LStops == nil {
+				changed = changed || len(L.grad.Stops) != 2 || L.grad.Stops[0].Color != c14Stop0 || L.grad.Stops[1].Color != c14Stop1
+			} else {
+				changed = changed || len(L.grad.Stops) != len(L.d.LStops)/4
+				for i := 0; !changed && i < len(L.grad.Stops); i++ {
+					st := L.grad.Stops[i]
+					changed = st.Offset != L.d.LStops[4*i] || st.Color != (color.RGBA{uint8(L.d.LStops[4*i+1]), uint8(L.d.LStops[4*i+2]), uint8(L.d.LStops[4*i+3]), 255})
+				}
+			}
+			if changed {
 				o.Fail("gradient-changed", "rendering changed the gradient of the caller: %+v", L.grad)
 				return
 			}
@@ -517,9 +562,30 @@ func c14Check(ci any, o *core.Obs) {
 				t := (q.X*c.W + q.Y*c.H) / (c.W*c.W + c.H*c.H)
 				t = math.Min(1, math.Max(0, t))
 				gradCol = &[4]float64{}
-				a0, a1 := [4]float64{float64(c14Stop0.R), float64(c14Stop0.G), float64(c14Stop0.B), 255}, [4]float64{float64(c14Stop1.R), float64(c14Stop1.G), float64(c14Stop1.B), 255}
-				for ch := 0; ch < 4; ch++ {
-					gradCol[ch] = (1-t)*a0[ch] + t*a1[ch]
+				offs, cols := []float64{0, 1}, [][4]float64{{float64(c14Stop0.R), float64(c14Stop0.G), float64(c14Stop0.B), 255}, {float64(c14Stop1.R), float64(c14Stop1.G), float64(c14Stop1.B), 255}}
+				if d.LStops != nil {
+					offs, cols = nil, nil
+					for i := 0; i+3 < len(d.LStops); i += 4 {
+						offs = append(offs, d.LStops[i])
+						cols = append(cols, [4]float64{d.LStops[i+1], d.LStops[i+2], d.LStops[i+3], 255})
+					}
+				}
+				// the first colour before the first stop, the last after the last one, linear in between
+				switch {
+				case t <= offs[0]:
+					*gradCol = cols[0]
+				case t >= offs[len(offs)-1]:
+					*gradCol = cols[len(cols)-1]
+				default:
+					for i := 0; i+1 < len(offs); i++ {
+						if t >= offs[i] && t <= offs[i+1] {
+							u := (t - offs[i]) / (offs[i+1] - offs[i])
+							for ch := 0; ch < 4; ch++ {
+								gradCol[ch] = (1-u)*cols[i][ch] + u*cols[i+1][ch]
+							}
+							break
+						}
+					}
 				}
 			}
 			if d.Fill != nil {
@@ -660,6 +726,7 @@ func init() {
 			{Name: "view", Quick: 300, Thorough: 25000, Gen: genC14("view")},
 			{Name: "rule", Quick: 300, Thorough: 15000, Gen: genC14("rule")},
 			{Name: "lowres", Quick: 300, Thorough: 8000, Gen: genC14("lowres")},
+			{Name: "gradient-stops", Quick: 300, Thorough: 8000, Gen: genC14("gradient-stops"), Note: "linear gradients of 2-4 stops whose first stop may lie after 0 and whose last before 1"},
 			{Name: "dense", Quick: 60, Thorough: 1500, Gen: genC14("dense"), Note: "closed polylines of 600-3000 vertices, hundredths of a pixel apart"},
 			{Name: "border", Quick: 300, Thorough: 6000, Gen: genC14("border"), WitnessOnly: true, Note: "shapes crossing the top or the left border of the image: geometry within one pixel outside those borders is accumulated into row 0 / column 0 (integer truncation in the scanx dependency), about 1 case in 100"},
 		},
